@@ -223,7 +223,7 @@ package dmap
 // A write on the partition owner (C09, single-copy path stated exactly; with replicas the same entry is
 // handed to the replication routines). S below is the storage of the fragment the write lands in.
 //@ func (dm *DMap) putOnCluster(e *env) error
-//@   props C09 C10
+//@   props C09 C10 C04
 //@   requires #lru_samples: dm.config != nil ==> dm.config.lruSamples >= 1
 //@   flag clock
 //@   flag termination
